@@ -8,6 +8,7 @@ package main
 import (
 	"math/big"
 	"sort"
+	"strconv"
 	"strings"
 
 	"github.com/tuneinsight/lattigo/v6/circuits/ckks/bootstrapping"
@@ -30,6 +31,7 @@ const (
 	c08GvList
 	c08GvNone
 	c08GvSome
+	c08GvInt // signed field, value in n as uint64(int64)
 )
 
 type c08Gv struct {
@@ -47,6 +49,7 @@ func c08VList(l []*c08Gv) *c08Gv  { return &c08Gv{k: c08GvList, l: l} }
 func c08VNone() *c08Gv            { return &c08Gv{k: c08GvNone} }
 func c08VSome(a *c08Gv) *c08Gv    { return &c08Gv{k: c08GvSome, a: a} }
 func c08VBool(b bool) *c08Gv      { return c08VNum(c08B2u(b)) }
+func c08VInt(z int64) *c08Gv      { return &c08Gv{k: c08GvInt, n: uint64(z)} }
 func c08VTuple(xs ...*c08Gv) *c08Gv { // right-nested
 	if len(xs) == 1 {
 		return xs[0]
@@ -94,6 +97,9 @@ func (v *c08Gv) write(sb *strings.Builder) {
 		sb.WriteByte(']')
 	case c08GvNone:
 		sb.WriteByte('~')
+	case c08GvInt:
+		sb.WriteByte('i')
+		sb.WriteString(strconv.FormatInt(int64(v.n), 10))
 	case c08GvSome:
 		sb.WriteByte('?')
 		v.a.write(sb)
@@ -146,7 +152,7 @@ func c08RScale(s rlwe.Scale) *c08Gv {
 
 func c08RPtMeta(m rlwe.PlaintextMetaData) *c08Gv {
 	return c08VTuple(c08RScale(m.Scale), c08VBool(m.IsBatched), c08VBool(m.IsBitReversed),
-		c08VNum(uint64(uint8(m.LogDimensions.Rows))), c08VNum(uint64(uint8(m.LogDimensions.Cols))))
+		c08VInt(int64(m.LogDimensions.Rows)), c08VInt(int64(m.LogDimensions.Cols)))
 }
 
 func c08RCtMeta(m rlwe.CiphertextMetaData) *c08Gv {
